@@ -138,6 +138,10 @@ func runC15(c *core.Ctx) {
 	if x == nil {
 		return
 	}
+	if xOnly(c) {
+		c15Index(c, x.k.g)
+		return
+	}
 	c15Validate(x)
 	c15Node(x)
 	c15Rank(x)
@@ -146,6 +150,7 @@ func runC15(c *core.Ctx) {
 	lx := &c14x{c, newG(c, "./lib/rac")}
 	lx.leafAssign()
 	lx.leafUse()
+	c15Index(c, x.k.g)
 }
 
 // ---------------------------------------------------------------------------
